@@ -465,6 +465,91 @@ func runDirected1(d Directed, v *vt.V) {
 		if v.Failed() {
 			return
 		}
+	case "write-during-commit":
+		// a Write on a second handle that succeeds while a Commit on the first is in flight has
+		// either been counted by the commit's digest check (the commit then fails) or comes after
+		// the commit - in which case the committed blob is there for any read that starts after
+		// the Write has returned. The window between the commit's check and its store is widened
+		// with public operations only: a large session (the check takes a few ms and the Write
+		// queues behind it) and a read of a large blob that keeps the registry busy meanwhile.
+		mem := ocimem.New()
+		hog := bytes.Repeat([]byte("h"), 64<<20)
+		dhog := digest.FromBytes(hog)
+		if _, err := mem.PushBlob(ctx, "foo", ociregistry.Descriptor{MediaType: "application/octet-stream", Digest: dhog, Size: int64(len(hog))}, bytes.NewReader(hog)); err != nil {
+			v.Failf("harness", "%v", err)
+			return
+		}
+		for i := 0; i < max(d.Iters/30, 8); i++ {
+			x := bytes.Repeat([]byte{byte(i)}, 16<<20)
+			copy(x, fmt.Sprintf("trial %d;", i))
+			dx := digest.FromBytes(x)
+			wa, err := mem.PushBlobChunked(ctx, "foo", 0)
+			if err != nil {
+				v.Failf("harness", "%v", err)
+				return
+			}
+			wa.Write(x)
+			wb, err := mem.PushBlobChunkedResume(ctx, "foo", wa.ID(), int64(len(x)), 0)
+			if err != nil {
+				v.Failf("harness", "%v", err)
+				return
+			}
+			start := make(chan struct{})
+			var writeDone, hogDone, commitDone atomic.Bool
+			var missing atomic.Int32
+			var commitErr, writeErr error
+			var wg sync.WaitGroup
+			const readers = 8
+			wg.Add(3 + readers)
+			go func() {
+				defer wg.Done()
+				<-start
+				_, commitErr = wa.Commit(dx)
+				commitDone.Store(true)
+			}()
+			go func() {
+				defer wg.Done()
+				<-start
+				time.Sleep(500 * time.Microsecond) // the Commit gets going first; its check takes much longer than this
+				if _, writeErr = wb.Write([]byte("y")); writeErr == nil {
+					writeDone.Store(true)
+				}
+			}()
+			go func() {
+				defer wg.Done()
+				<-start
+				time.Sleep(time.Millisecond)
+				if r, err := mem.GetBlob(ctx, "foo", dhog); err == nil {
+					r.Close()
+				}
+				hogDone.Store(true)
+			}()
+			for r := 0; r < readers; r++ {
+				go func() {
+					defer wg.Done()
+					<-start
+					for !hogDone.Load() {
+						runtime.Gosched()
+					}
+					// only a read that starts after the Write has returned counts
+					if !writeDone.Load() || commitDone.Load() {
+						return
+					}
+					if rd, err := mem.GetBlob(ctx, "foo", dx); err == nil {
+						rd.Close()
+					} else {
+						missing.Add(1)
+					}
+				}()
+			}
+			close(start)
+			wg.Wait()
+			if commitErr == nil && writeErr == nil && missing.Load() > 0 {
+				v.Failf("commit-not-atomic", "%s, iteration %d: Commit(digest of %d bytes) succeeded, so the Write of one more byte through a second handle - which also succeeded - came after it; yet %d read(s) of the committed blob that started after that Write had returned found it missing", d.Family, i, len(x), missing.Load())
+				return
+			}
+			mem.DeleteBlob(ctx, "foo", dx)
+		}
 	case "same-offset-race":
 		// several handles opened at the same (right) offset write at once: exactly one write is
 		// accepted, the others are refused as range-invalid, and the session holds one chunk
@@ -636,7 +721,7 @@ func init() {
 	propDirected = &vt.Prop[Directed]{
 		ID:   "C08",
 		Name: "DirectedRaces",
-		Rule: "directed workload families aimed at the registry's two-step operations, each a loop of racing goroutines under -race: tag-flip (a tag moved back and forth between two manifests, the old one deleted each time, while 4 readers GetTag: never missing, never foreign bytes), commit-vs-write / resume-vs-write (one goroutine commits digest(X) while another writes to the same session: a successful commit stores exactly X with the right size, a failed one stores nothing), commit-vs-cancel / commit-vs-wrong-commit / commit-vs-write-commit (every commit that reports success leaves exactly its content retrievable under its digest; nothing is ever stored under the empty digest), stale-write-vs-status / good-write-vs-wrong-offset (a handle opened at a stale offset is refused, one opened at the right offset is accepted, whatever offsets other handles on the same session are opened at meanwhile), first-resume-race (goroutines opening the same fresh upload id at once share one session: no acknowledged write is lost), same-offset-race (of several handles opened at the same offset and writing at once exactly one is accepted), interleaved-chunks (over HTTP: a chunk request is served while another one's body is half delivered - the requests must take effect one after the other); distinct = (family, iterations, size)",
+		Rule: "directed workload families aimed at the registry's two-step operations, each a loop of racing goroutines under -race: tag-flip (a tag moved back and forth between two manifests, the old one deleted each time, while 4 readers GetTag: never missing, never foreign bytes), commit-vs-write / resume-vs-write (one goroutine commits digest(X) while another writes to the same session: a successful commit stores exactly X with the right size, a failed one stores nothing), commit-vs-cancel / commit-vs-wrong-commit / commit-vs-write-commit (every commit that reports success leaves exactly its content retrievable under its digest; nothing is ever stored under the empty digest), stale-write-vs-status / good-write-vs-wrong-offset (a handle opened at a stale offset is refused, one opened at the right offset is accepted, whatever offsets other handles on the same session are opened at meanwhile), first-resume-race (goroutines opening the same fresh upload id at once share one session: no acknowledged write is lost), same-offset-race (of several handles opened at the same offset and writing at once exactly one is accepted), write-during-commit (a Write that succeeds while a Commit is in flight either makes the commit fail or finds the committed blob in place once it has returned), interleaved-chunks (over HTTP: a chunk request is served while another one's body is half delivered - the requests must take effect one after the other); distinct = (family, iterations, size)",
 		Run:  runDirected,
 	}
 }
@@ -650,9 +735,9 @@ func TestPropDirected(t *testing.T) {
 	vt.Enumerate(t, propDirected, false, func(yield func(Directed) bool) {
 		k := 0
 		for rep := 0; rep < 2; rep++ {
-			for _, f := range []string{"tag-flip", "commit-vs-write", "commit-vs-cancel", "resume-vs-write", "commit-vs-wrong-commit", "commit-vs-write-commit", "stale-write-vs-status", "good-write-vs-wrong-offset", "first-resume-race", "same-offset-race", "interleaved-chunks"} {
+			for _, f := range []string{"tag-flip", "commit-vs-write", "commit-vs-cancel", "resume-vs-write", "commit-vs-wrong-commit", "commit-vs-write-commit", "stale-write-vs-status", "good-write-vs-wrong-offset", "first-resume-race", "same-offset-race", "write-during-commit", "interleaved-chunks"} {
 				for _, size := range []int{4, 4096, 1 << 20} {
-					if (f == "tag-flip" || f == "first-resume-race") && size != 4 || (f == "interleaved-chunks" || f == "same-offset-race") && size > 4096 {
+					if (f == "tag-flip" || f == "first-resume-race") && size != 4 || (f == "interleaved-chunks" || f == "same-offset-race") && size > 4096 || f == "write-during-commit" && size < 1<<20 {
 						continue
 					}
 					k++
